@@ -23,7 +23,27 @@ action readonly in [anyop];
 action view in [readonly] appliesTo { principal: [User], resource: [Doc], context: { via?: User, n: Long, docs?: Set<Doc> } };
 action edit in [anyop] appliesTo { principal: [User], resource: [Doc], context: { via?: User, n: Long, docs?: Set<Doc> } };
 action browse in [readonly] appliesTo { principal: [User], resource: [Folder], context: { via?: User, n: Long, docs?: Set<Doc> } };
+action peek in [readonly] appliesTo { principal: [User], resource: [Doc, Folder], context: { via?: User, n: Long, docs?: Set<Doc> } };
 "#;
+
+/// Shapes for the action that applies to two resource types (the policy is specialised per
+/// request environment), and templates; `//link <principal|-> <resource|->` lines give the links.
+pub const EXTRA_SHAPES: &[&str] = &[
+    r#"permit(principal, action == Action::"peek", resource is Doc) when { resource.owner == principal };"#,
+    r#"permit(principal, action == Action::"peek", resource is Folder) when { resource has admin && resource.admin == principal };"#,
+    r#"forbid(principal, action == Action::"peek", resource) when { resource is Doc && !resource.public };"#,
+    r#"permit(principal, action == Action::"peek", resource) when { if resource is Folder then resource.depth > 0 else resource.readers.contains(principal) };"#,
+    r#"forbid(principal, action in Action::"readonly", resource is Folder) when { resource.depth > 1 && principal.level < 3 };"#,
+    r#"permit(principal, action == Action::"peek", resource is Doc in Folder::"{F}") when { resource.owner.level > 1 };"#,
+];
+pub const TEMPLATE_SHAPES: &[(&str, bool, bool)] = &[
+    (r#"permit(principal in ?principal, action, resource in ?resource);"#, true, true),
+    (r#"permit(principal == ?principal, action in [Action::"view", Action::"edit"], resource) when { resource.owner == principal || resource.public };"#, true, false),
+    (r#"forbid(principal, action in [Action::"view", Action::"edit"], resource in ?resource) when { !resource.public };"#, false, true),
+    (r#"permit(principal in ?principal, action, resource) when { principal.level > 1 };"#, true, false),
+    (r#"permit(principal == ?principal, action, resource == ?resource);"#, true, true),
+    (r#"forbid(principal in ?principal, action == Action::"peek", resource is Doc in ?resource) when { resource.owner != principal };"#, true, true),
+];
 
 /// Policy shapes. `{U}`, `{G}`, `{D}`, `{F}` are replaced by literal ids drawn per policy.
 pub const SHAPES: &[&str] = &[
@@ -296,7 +316,41 @@ struct Built {
 fn build(case: &Case, obs: &mut Obs) -> Option<Built> {
     let schema = schema();
     let mut ps = PolicySet::new();
+    let mut link_ids: Vec<String> = vec![];
     for (i, p) in case.policies.iter().enumerate() {
+        if p.contains("?principal") || p.contains("?resource") {
+            // a template and its links
+            let t = match cedar_policy::Template::parse(Some(cedar_policy::PolicyId::new(format!("p{i}"))), p) {
+                Ok(t) => t,
+                Err(_) => {
+                    obs.count("precondition_rejected.policy_parse");
+                    return None;
+                }
+            };
+            if ps.add_template(t).is_err() {
+                return None;
+            }
+            for (k, line) in p.lines().filter(|l| l.starts_with("//link ")).enumerate() {
+                let mut parts = line["//link ".len()..].split(' ');
+                let mut vals = std::collections::HashMap::new();
+                for slot in [cedar_policy::SlotId::principal(), cedar_policy::SlotId::resource()] {
+                    match parts.next() {
+                        Some("-") | None => {}
+                        Some(u) => {
+                            let Ok(u) = EntityUid::from_str(u) else { return None };
+                            link_ids.push(u.to_string());
+                            vals.insert(slot, u);
+                        }
+                    }
+                }
+                if ps.link(cedar_policy::PolicyId::new(format!("p{i}")), cedar_policy::PolicyId::new(format!("p{i}l{k}")), vals).is_err() {
+                    obs.count("precondition_rejected.link");
+                    return None;
+                }
+                obs.count("reach.template_links");
+            }
+            continue;
+        }
         let pol = match cedar_policy::Policy::parse(Some(cedar_policy::PolicyId::new(format!("p{i}"))), p) {
             Ok(p) => p,
             Err(_) => {
@@ -363,6 +417,9 @@ fn build(case: &Case, obs: &mut Obs) -> Option<Built> {
     ids.insert(p.to_string());
     ids.insert(a.to_string());
     ids.insert(r.to_string());
+    for l in link_ids {
+        ids.insert(l);
+    }
     for pol in ps.policies() {
         // literal uids of the policy, read off its JSON form
         if let Ok(j) = pol.to_json() {
@@ -654,6 +711,21 @@ fn gen_case(seed: u64) -> Case {
     let mut policies = vec![];
     for _ in 0..np {
         let s = if membership && rng.pct(70) { SHAPES[*rng.pick(&MEMBERSHIP_SHAPES)] } else if rng.pct(35) { SHAPES[rng.range(DEEP_FROM, SHAPES.len() - 1)] } else { *rng.pick(SHAPES) };
+        // swarm: some policies come from the shapes for the two-resource-type action, some are templates with 1-3 links
+        let mut tlinks = String::new();
+        let s = if rng.pct(12) {
+            *rng.pick(EXTRA_SHAPES)
+        } else if rng.pct(10) {
+            let (t, sp, sr) = *rng.pick(TEMPLATE_SHAPES);
+            for _ in 0..rng.range(1, 3) {
+                let pv = if sp { if rng.pct(50) { format!("Group::\"{}\"", pk(&mut rng, &groups)) } else { format!("User::\"{}\"", pk(&mut rng, &users)) } } else { "-".to_string() };
+                let rv = if sr { if rng.pct(60) { format!("Folder::\"{}\"", pk(&mut rng, &folders)) } else { format!("Doc::\"{}\"", pk(&mut rng, &docs)) } } else { "-".to_string() };
+                tlinks.push_str(&format!("\n//link {pv} {rv}"));
+            }
+            t
+        } else {
+            s
+        };
         let p = s
             .replace("{U2}", pk(&mut rng, &users))
             .replace("{U}", pk(&mut rng, &users))
@@ -661,10 +733,10 @@ fn gen_case(seed: u64) -> Case {
             .replace("{G}", pk(&mut rng, &groups))
             .replace("{D}", pk(&mut rng, &docs))
             .replace("{F}", pk(&mut rng, &folders));
-        policies.push(p);
+        policies.push(format!("{p}{tlinks}"));
     }
-    let action = *rng.pick(&["view", "view", "edit", "browse"]);
-    let resource = if action == "browse" { format!("Folder::\"{}\"", pk(&mut rng, &folders)) } else { format!("Doc::\"{}\"", pk(&mut rng, &docs)) };
+    let action = *rng.pick(&["view", "view", "edit", "browse", "peek", "peek"]);
+    let resource = if action == "browse" || (action == "peek" && rng.pct(50)) { format!("Folder::\"{}\"", pk(&mut rng, &folders)) } else { format!("Doc::\"{}\"", pk(&mut rng, &docs)) };
     let mut ctx = serde_json::Map::new();
     ctx.insert("n".into(), json!(rng.below(10) as i64));
     if rng.pct(50) {
